@@ -515,6 +515,19 @@ def shapes(ctx: Ctx) -> None:
     for (z, f), (may, must) in trd.items():
         ok = ok and may == (not z and f)
     ctx.ob("C14.R3", ff, "zero / inf / NaN returned unchanged before rounding", ok, f"unchanged: {fmt_table(['zero', 'finite'], ts)}; rounded: {fmt_table(['zero', 'finite'], trd)}")
+    # every field owns its converter: converter_field() records the converter in the metadata mapping it is given, so a
+    # mapping shared between two fields (a module-level dict passed as metadata= at both) ends up with the converter
+    # of whichever field was declared last - for both
+    shared_md = []
+    for mn in ("model",):
+        for c in ast.walk(ctx.repo.module(mn).tree):
+            if isinstance(c, ast.Call) and norm(c.func).split(".")[-1] == "converter_field":
+                for k in c.keywords:
+                    if k.arg == "metadata" and not isinstance(k.value, ast.Dict) and not (isinstance(k.value, ast.Call) and norm(k.value.func) in ("dict", "copy", "copy.copy")) and not (isinstance(k.value, ast.Call) and isinstance(k.value.func, ast.Attribute) and k.value.func.attr == "copy"):
+                        shared_md.append(f"L{c.lineno} metadata={norm(k.value)[:30]}")
+    cf_ = ctx.repo.func("model", "converter_field")
+    mutates = any(isinstance(n, ast.Assign) and any(isinstance(t, ast.Subscript) and norm(t.value) == "metadata" for t in n.targets) for n in own_nodes(cf_.node))
+    ctx.ob("C14.R3", cf_, "no two fields share the metadata mapping the converter is recorded in", not (mutates and shared_md), f"{shared_md[:3]}: converter_field() writes the converter into that very object; every field given the same object gets the converter of the last one")
     # a memoised conversion answers by *equal* key: 0.0 and -0.0 (and 1 and 1.0 and True) are one cache slot, so what a
     # value converts to would depend on which equal value was converted first
     ctx.ob("C14.R3", ff, "the float conversion is a plain function (not memoised)", not ff.node.decorator_list, f"decorators {[norm(d)[:40] for d in ff.node.decorator_list]}: `unchanged` zero / equal values of different type would share one cached answer")
